@@ -34,6 +34,11 @@ Observe(d, s, o) ==
   ELSE IF o.time # TimeSeq(d, s) \/ o.lat # LatSeq(d, s) \/ o.lon # LonSeq(d, s) THEN <<"WindowDef", "grid">>
   ELSE IF o.window # Boundaries(d, s) THEN <<"WindowDef", "window">>
   ELSE IF o.phase_indices # PhaseIndices(d, s) THEN <<"PhaseDef", "phase_indices">>
+  ELSE IF LET pi == PhaseIndices(d, s)
+              want == UNION {{pi[o.sel_phases[k] + 1][y] : y \in 1..Len(pi[o.sel_phases[k] + 1])} : k \in 1..Len(o.sel_phases)}
+          IN ~(/\ {o.isp[k] : k \in 1..Len(o.isp)} = want /\ Len(o.isp) = Cardinality(want)
+               /\ \A k \in 1..(Len(o.isp) - 1) : o.isp[k] < o.isp[k + 1])
+       THEN <<"PhaseDef", "indices_selected_phases">>
   ELSE IF ~PhaseMeanOK(d, s, o) THEN <<"PhaseDef", "phase_mean">>
   ELSE IF ~Shape(o.anomaly, Len(s.t), Len(s.s)) THEN <<"Shapes", "anomaly">>
   ELSE IF ~AnomalyOK(d, s, o) THEN <<"AnomalyDef", "anomaly">>
